@@ -162,7 +162,7 @@ Section Merge.
     Forall (le r) (heads runs) /\ (forall j0 m, best = Some (j0, m) -> le r m) /\ P r.
   Proof.
     induction runs as [|run runs IH]; intros i best j r HP Hb Hpick; cbn in Hpick.
-    - subst best. repeat split; auto.
+    - subst best. split; [now left|]. split; [constructor|]. split.
       + intros j0 m E; inversion E; subst. apply le_refl.
       + eapply Hb; eauto.
     - inversion HP as [|? ? HPrun HPruns]; subst.
@@ -256,10 +256,10 @@ Lemma pop_run_Forall (Q : list row -> Prop) runs i :
   (forall x l, Q (x :: l) -> Q l) -> Q [] ->
   Forall Q runs -> Forall Q (pop_run i runs).
 Proof.
-  intros Htl Hnil. revert i; induction runs as [|run runs IH]; intros i H; cbn; auto.
+  intros Htl Hnil. revert i; induction runs as [|run runs IH]; intros i H; cbn; [constructor|].
   inversion H; subst. destruct i.
-  - constructor; auto. destruct run; cbn; eauto.
-  - constructor; auto.
+  - constructor; [|assumption]. destruct run; cbn; eauto.
+  - constructor; [assumption|]. apply IH; assumption.
 Qed.
 
 Section MergeSorted.
@@ -363,18 +363,18 @@ Section Dedup.
     (forall x, In x l -> K x = prev \/ exists p, In p (dedup K prev false l) /\ K p = K x).
   Proof.
     induction l as [|r l IH]; intros prev Hs Hp; cbn.
-    - repeat split; try constructor. intros x [].
+    - split; [constructor|]. split; [constructor|]. split; intros x [].
     - apply StronglySorted_inv in Hs as [Hs Hr]. inversion Hp as [|? ? Hpr Hpl]; subst.
       unfold pk_is_different. destruct (key_eqb prev (K r)) eqn:E.
       + apply key_eqb_eq in E. destruct (IH prev Hs Hpl) as (I1 & I2 & I3 & I4).
-        repeat split; auto.
+        split; [assumption|]. split; [assumption|]. split.
         * intros x Hx. right. now apply I3.
         * intros x [->|Hx]; [left; congruence|]. apply I4; auto.
       + apply key_eqb_neq in E.
         assert (Hlt : kcmp prev (K r) = Lt).
         { destruct (kcmp prev (K r)) eqn:C; try congruence. apply kcmp_eq in C. contradiction. }
         destruct (IH (K r) Hs Hr) as (I1 & I2 & I3 & I4).
-        repeat split.
+        split; [|split; [|split]].
         * constructor; auto.
         * constructor; auto. eapply Forall_impl; [|exact I2]. intros y Hy.
           eapply kcmp_lt_trans; eauto.
@@ -393,10 +393,10 @@ Section Dedup.
     (forall x, In x l -> exists p, In p (dedup K prev true l) /\ K p = K x).
   Proof.
     destruct l as [|r l]; intros Hs; cbn.
-    - repeat split; try constructor. intros x []. intros x [].
+    - split; [constructor|]. split; intros x [].
     - apply StronglySorted_inv in Hs as [Hs Hr].
       destruct (dedup_false l (K r) Hs Hr) as (I1 & I2 & I3 & I4).
-      repeat split.
+      split; [|split].
       + constructor; auto.
       + intros x [->|Hx]; [now left|]. right. now apply I3.
       + intros x [->|Hx].
